@@ -330,6 +330,8 @@ impl<T> Handle<T> {
         #[cfg(feature = "verif-hooks")]
         __verif_wait(&inner, true);
         let mut lock = try_lock!(inner.write(), else return Err(Error::poisoned()));
+        #[cfg(feature = "verif-hooks")]
+        tracing_core::__verif::point("reload.inner.write.held");
         f(&mut *lock);
         // Release the lock before rebuilding the interest cache, as that
         // function will lock the new subscriber.
